@@ -671,3 +671,6 @@ def run(ctx):
     rule_answer_subset(ctx)
     rule_request(ctx)
     rule_escape(ctx)
+    # "arbitrarily segmented bytes": on asyncio the reads pass through the adapter's receive queue before they reach the handshake parser
+    from .c01 import rule_asyncio_queue
+    rule_asyncio_queue(ctx, "C07.9-asyncio-reads-reach-the-handshake-parser-in-order")
